@@ -293,4 +293,116 @@ RECIPES = [
     ("C06", "break", ["C06-R2"], CB, "    C[b[trn]] = 1 / lengthconv\n", "    for j in range(1, 4):\n        C[b[j::6]] = 1 / lengthconv\n", "cbconvert: strided stores on DOF 2-4"),
     ("C06", "break", ["C06-R3"], CB, "            pv = np.hstack((q, b))\n", "            pv = np.hstack((q, q))\n", "cbreorder: the boundary set lost from the new order"),
     ("C06", "break", ["C06-R1"], CB, "    if qset.size == 0:\n        accel = a.copy()", "    if bset.size == 0:\n        accel = a.copy()", "cbtf: the all-boundary shortcut tested on the wrong set"),
+    # ---- R8 cgmass (pass 5): value identity on the rigid mass M = T^T blkdiag(diag(mx, my, mz), J) T
+    ("C06", "break", ['C06-R8'], CB, '            [mz * dy**2 + my * dz**2, -mz * dx * dy, -my * dx * dz],\n',
+     '            [my * dy**2 + mz * dz**2, -mz * dx * dy, -my * dx * dz],\n',
+     'cgmass: Ixx parallel-axis terms with the mass subscript following the distance subscript (seed P, one entry)'),
+    ("C06", "break", ['C06-R8'], CB, '            [-my * dx * dz, -mx * dy * dz, mx * dy**2 + my * dx**2],\n',
+     '            [-my * dx * dz, -mx * dy * dz, mx * dx**2 + my * dy**2],\n',
+     'cgmass: Izz parallel-axis terms with the mass subscript following the distance subscript'),
+    ("C06", "break", ['C06-R8'], CB, '            [mz * dy**2 + my * dz**2, -mz * dx * dy, -my * dx * dz],\n',
+     '            [mz * dy**2 + my * dz**2, -my * dx * dy, -my * dx * dz],\n',
+     'cgmass: product term xy with the mass of the wrong direction (off-diagonal, one triangle)'),
+    ("C06", "break", ['C06-R8'], CB, '            [-mz * dx * dy, mz * dx**2 + mx * dz**2, -mx * dy * dz],\n',
+     '            [-mz * dx * dy, mz * dx**2 + mx * dz**2, -my * dy * dz],\n',
+     'cgmass: product term yz with my instead of mx'),
+    ("C06", "break", ['C06-R8'], CB, '            [-my * dx * dz, -mx * dy * dz, mx * dy**2 + my * dx**2],\n',
+     '            [-my * dx * dz, mx * dy * dz, mx * dy**2 + my * dx**2],\n',
+     'cgmass: sign slip in one product term'),
+    ("C06", "break", ['C06-R8'], CB, '            [-mz * dx * dy, mz * dx**2 + mx * dz**2, -mx * dy * dz],\n',
+     '            [-mz * dx * dy, mz * dx**2, -mx * dy * dz],\n',
+     'cgmass: one parallel-axis term dropped'),
+    ("C06", "break", ['C06-R8'], CB, '            [mz * dy**2 + my * dz**2, -mz * dx * dy, -my * dx * dz],\n',
+     '            [mz * dy**2 + my * dz, -mz * dx * dy, -my * dx * dz],\n',
+     'cgmass: a distance not squared'),
+    ("C06", "break", ['C06-R8'], CB, '            [mz * dy**2 + my * dz**2, -mz * dx * dy, -my * dx * dz],\n',
+     '            [mz * dy**2 - my * dz**2, -mz * dx * dy, -my * dx * dz],\n',
+     'cgmass: sign of one parallel-axis term'),
+    ("C06", "break", ['C06-R8'], CB, '        [[0, mx * dz, -mx * dy], [-my * dz, 0, my * dx], [mz * dy, -mz * dx, 0]]\n',
+     '        [[0, mx * dz, -mx * dy], [-my * dz, 0, my * dx], [mz * dy, -mz * dz, 0]]\n',
+     'cgmass: coupling term with the wrong distance'),
+    ("C06", "break", ['C06-R8'], CB, '        [[0, mx * dz, -mx * dy], [-my * dz, 0, my * dx], [mz * dy, -mz * dx, 0]]\n',
+     '        [[0, mx * dz, mx * dy], [-my * dz, 0, my * dx], [mz * dy, -mz * dx, 0]]\n',
+     'cgmass: sign slip in the coupling matrix'),
+    ("C06", "break", ['C06-R8'], CB, '    mcg[3:, :3] -= Md.T\n',
+     '    mcg[3:, :3] -= Md\n',
+     'cgmass: lower-left coupling block reduced by the untransposed matrix'),
+    ("C06", "break", ['C06-R8'], CB, '    mcg[3:, 3:] -= I\n',
+     '    mcg[3:, 3:] += I\n',
+     'cgmass: parallel-axis terms added instead of removed'),
+    ("C06", "break", ['C06-R8'], CB, '    dy = m[2, 3] / mz\n',
+     '    dy = m[2, 3] / my\n',
+     'cgmass: cg offset y from the mass of the wrong direction'),
+    ("C06", "break", ['C06-R8'], CB, '    dz = m[0, 4] / mx\n',
+     '    dz = m[1, 3] / my\n',
+     'cgmass: cg offset z with the sign of the transposed coupling entry'),
+    ("C06", "break", ['C06-R8'], CB, '    dx = m[1, 5] / my\n',
+     '    dx = m[1, 4] / my\n',
+     'cgmass: cg offset x read from a zero entry'),
+    ("C06", "break", ['C06-R8'], CB, '    dxyz = np.array([dx, dy, dz])\n',
+     '    dxyz = np.array([dx, dz, dy])\n',
+     'cgmass: returned offsets in the wrong order'),
+    ("C06", "break", ['C06-R8'], CB, '    gyr = np.sqrt(np.diag(I) / np.diag(mcg)[:3])\n',
+     '    gyr = np.sqrt(np.diag(I) / np.diag(mcg)[3:])\n',
+     'cgmass: radius of gyration divides the inertia by itself'),
+    ("C06", "break", ['C06-R8'], CB, '    gyr = np.sqrt(np.diag(I) / np.diag(mcg)[:3])\n',
+     '    gyr = np.sqrt(np.diag(I)) / np.diag(mcg)[:3]\n',
+     'cgmass: root taken of the inertia only'),
+    ("C06", "break", ['C06-R8'], CB, '    I = mcg[3:, 3:]\n    dxyz',
+     '    I = m[3:, 3:]\n    dxyz',
+     'cgmass: returned inertia taken about the reference point'),
+    ("C06", "break", ['C06-R8'], CB, '    mcg = m.astype(float, copy=True)\n',
+     '    mcg = np.empty_like(m, dtype=float)\n    mcg[:3, :3] = m[:3, :3]\n    mcg[3:, 3:] = m[3:, 3:]\n    mcg[:3, 3:] = m[:3, 3:]\n',
+     'cgmass: one block of the work matrix left uninitialised'),
+    ("C06", "neutral", [], CB, '            [mz * dy**2 + my * dz**2, -mz * dx * dy, -my * dx * dz],\n',
+     '            [my * dz**2 + mz * dy**2, -mz * dx * dy, -my * dx * dz],\n',
+     'cgmass: summands reordered'),
+    ("C06", "neutral", [], CB, '            [mz * dy**2 + my * dz**2, -mz * dx * dy, -my * dx * dz],\n',
+     '            [mz * dy * dy + my * dz * dz, -(mz * dx * dy), -(my * dx * dz)],\n',
+     'cgmass: x * x for x ** 2, negation of the product'),
+    ("C06", "neutral", [], CB, '            [-mz * dx * dy, mz * dx**2 + mx * dz**2, -mx * dy * dz],\n',
+     '            [-dy * (mz * dx), dx * dx * mz + dz * (dz * mx), -dz * mx * dy],\n',
+     'cgmass: factors re-associated and reordered'),
+    ("C06", "neutral", [], CB, '            [mz * dy**2 + my * dz**2, -mz * dx * dy, -my * dx * dz],\n',
+     '            [mz * dy**2 + my * dz**2, -mz * dx * dy, -m[1, 5] * dz],\n',
+     'cgmass: my * dx read back from the matrix'),
+    ("C06", "neutral", [], CB, '    # compute mass terms that will be subtracted off:\n',
+     '    dx2, dy2, dz2 = dx * dx, dy * dy, dz * dz\n    ixx = mz * dy2 + my * dz2\n',
+     'cgmass: named temporaries (unused here; see the next one)'),
+    ("C06", "neutral", [], CB, '    I = np.array(\n        [\n            [mz * dy**2 + my * dz**2, -mz * dx * dy, -my * dx * dz],\n',
+     '    ixx = mz * dy**2 + my * dz**2\n    pxy = mz * dx * dy\n    I = np.array(\n        [\n            [ixx, -pxy, -my * dx * dz],\n',
+     'cgmass: named temporaries for one diagonal and one product term'),
+    ("C06", "neutral", [], CB, '    mcg[3:, 3:] -= I\n',
+     '    mcg[3:, 3:] = mcg[3:, 3:] - I\n',
+     'cgmass: plain assignment instead of the in-place subtraction'),
+    ("C06", "neutral", [], CB, '    mcg[3:, :3] -= Md.T\n',
+     '    mcg[3:, :3] = mcg[:3, 3:].T\n',
+     'cgmass: lower-left coupling block copied from the (already reduced) upper-right one'),
+    ("C06", "neutral", [], CB, '    mx, my, mz = np.diag(m)[:3]\n',
+     '    mx, my, mz = m[0, 0], m[1, 1], m[2, 2]\n',
+     'cgmass: masses read entry by entry'),
+    ("C06", "neutral", [], CB, '    mx, my, mz = np.diag(m)[:3]\n',
+     '    mx, my, mz = (m[i][i] for i in range(3))\n',
+     'cgmass: masses through a generator over range(3)'),
+    ("C06", "neutral", [], CB, '    dx = m[1, 5] / my\n',
+     '    dx = -m[2, 4] / mz\n',
+     'cgmass: cg offset x from the other coupling entry that holds it'),
+    ("C06", "neutral", [], CB, '    dy = m[2, 3] / mz\n',
+     '    dy = (m[3, 2] / mz - m[0, 5] / mx) / 2\n',
+     'cgmass: cg offset y as the mean of its two readings'),
+    ("C06", "neutral", [], CB, '    mcg = m.astype(float, copy=True)\n',
+     '    mcg = np.array(m, dtype=float)\n',
+     'cgmass: work copy through np.array'),
+    ("C06", "neutral", [], CB, '    mcg[3:, 3:] -= I\n',
+     '    for i in range(3):\n        for j in range(3):\n            mcg[3 + i, 3 + j] -= I[i][j]\n',
+     'cgmass: rotary block reduced entry by entry'),
+    ("C06", "neutral", [], CB, '    mcg[3:, 3:] -= I\n',
+     '    S = np.array([[0, -dz, dy], [dz, 0, -dx], [-dy, dx, 0]])\n    mcg[3:, 3:] -= S.T @ np.diag([mx, my, mz]) @ S\n',
+     'cgmass: parallel-axis terms as skew(d)^T diag(m) skew(d)'),
+    ("C06", "neutral", [], CB, '    gyr = np.sqrt(np.diag(I) / np.diag(mcg)[:3])\n',
+     '    gyr = np.sqrt(np.array([I[0, 0] / mx, I[1, 1] / my, I[2, 2] / mz]))\n',
+     'cgmass: radii of gyration entry by entry'),
+    ("C06", "neutral", [], CB, '    dxyz = np.array([dx, dy, dz])\n    if not all6:\n        return mcg, dxyz\n',
+     '    dxyz = np.array([dx, dy, dz])\n    if all6 is False or not all6:\n        return (mcg, dxyz)\n',
+     'cgmass: the early return written differently'),
 ]
